@@ -158,6 +158,9 @@ def gen_jobs(ctx):
     for n, t in gramgen.CURATED[:6]:
         jobs.append((n + "+layout", t + "\nLAYOUT: LayoutItem | LAYOUT LayoutItem | EMPTY;\n"
                      "LayoutItem: WS | Comment;\nterminals\nWS: /\\s+/;\nComment: /\\/\\/.*/;", "LAYOUT"))
+    for i in range(24 if quick else 200):
+        jobs.append(("twin%d" % i, gramgen.lr1_twin_grammar(rng)[1], None))
+        jobs.append(("ctx%d" % i, gramgen.ctx_nullable_grammar(rng)[1], None))
     n = 400 if quick else 6000
     for i in range(n):
         big = i % 3 == 0
